@@ -57,12 +57,13 @@ Fixpoint plain_cmd (k : N) (c : cmd) {struct c} : bool :=
       | NProbe => negb (N.eqb (hd 0%N args) k)
       | _ => true
       end
-  | CBrace body | CSubshell body => plain_list k body
+  | CBrace body | CSubshell body | CAssignSub _ body | CSubstArg body => plain_list k body
   | CIf cond body elifs _ els =>
       plain_list k cond && plain_list k body && plain_elifs k elifs && plain_list k els
   | CWhile _ cond body => plain_list k cond && plain_list k body
   | CFor _ _ body => plain_list k body
   | CCase _ items => plain_items k items
+  | CAsync a => plain_andor k a
   | CFunDef nm body => negb (name_eqb nm NProbe) && plain_cmd k body
   | CTrapExit _ => false
   | CRedirFail c => plain_cmd k c
